@@ -396,7 +396,7 @@ func Run(ctx *core.Ctx) int {
 	add("twostages-0-0-0", 2, false, 5, 9, -1, w12, ec) // development mode: stores only
 	add("samestage-0-3-0", 2, true, 1, 6, 6, w12, ec)   // two stores in one stage
 	add("maponly-1", 2, true, 2, 7, 6, w12, ec)         // no store at all
-	budget := 12 * time.Minute // the quick exploration takes about 4 minutes on an idle 16-core machine, 7 under load
+	budget := 12 * time.Minute                          // the quick exploration takes about 4 minutes on an idle 16-core machine, 7 under load
 	if spec := ctx.Args["case"]; spec != "" {
 		// --case "prog seg prod start stop final workers cache"
 		var c Case
